@@ -70,7 +70,8 @@ func (q *Queue[T]) Acquire(ctx context.Context, e T) (func(), error) {
 		vpGate("cancel_lock", q, &e)
 		// context abort, remove queued entry
 		q.mu.Lock()
-		if i := slices.Index(q.queued, &e); i >= 0 {
+		// lookup by the wait channel, entries of a zero size type all have the same address
+		if i := slices.Index(q.wait, &w); i >= 0 {
 			q.queued = slices.Delete(q.queued, i, i+1)
 			q.wait = slices.Delete(q.wait, i, i+1)
 			vpEvent("cancel_rm", q, &e)
